@@ -29,7 +29,7 @@ build_plain() { build_variant plain; }
 # variants a check needs besides plain
 variants_of() {
   case "$1" in
-    C03|C04|C05|C07|C12) echo b3 ;;
+    C03|C04|C05|C07|C12|C19|C01|C02) echo b3 ;;
     C16) echo sched ;;
   esac
 }
